@@ -370,8 +370,8 @@ def grad_umnn_rule(ctx):
     for fi in p.all_functions():
         if not fi.module.name.startswith("nflows."):
             continue
-        if not any(isinstance(x, ast.Attribute) and x.attr == "apply" and isinstance(x.value, ast.Name) and x.value.id in ("NeuralIntegral", "ParallelNeuralIntegral") for x in ast.walk(fi.node)):
-            continue
+        if not any(isinstance(x, ast.Name) and x.id in ("NeuralIntegral", "ParallelNeuralIntegral") for x in ast.walk(fi.node)):
+            continue  # (the integrator may be bound to a local first: integral = NeuralIntegral; integral.apply(..))
         try:
             paths = paths_of(fi.node)
         except AnalysisIncomplete as ex:
@@ -413,6 +413,15 @@ def grad_umnn_rule(ctx):
 
 def _late_inplace(ctx):
     return grad_inplace_rule(ctx)
+
+
+def grad_memo_rule(ctx):
+    """GRAD-MEMO = OWN-ATTR for kept tensors (shared with C13): a result must be computed from the arguments and
+    the parameters of *this* call; a tensor memoised by an earlier evaluation call brings that call's graph
+    (freed after the first backward) or, if made under no_grad, no graph at all."""
+    from .own_rules import memo_findings
+
+    return memo_findings(ctx, "GRAD-MEMO", "a later call that returns the kept tensor differentiates through the graph of the call that made it (freed after one backward; absent if that call ran under no_grad; blind to parameter updates)")
 
 
 def grad_ident_rule(ctx):
@@ -481,7 +490,7 @@ def grad_ident_rule(ctx):
 
 register(
     "C16",
-    [grad_cut_rule, grad_reach_rule, _late_inplace, grad_where_rule, grad_umnn_rule, grad_ident_rule],
+    [grad_cut_rule, grad_reach_rule, _late_inplace, grad_where_rule, grad_umnn_rule, grad_ident_rule, grad_memo_rule],
     "Forward may-dependence (taint) analysis over every differentiable entry point (forward/inverse of every Transform per "
     "concrete receiver class, the Linear accessors, log_prob/_log_prob/mean of every Distribution, Flow.sample_and_log_prob/"
     "_sample/transform_to_noise, forward/log_prob of the remaining nn.Modules, the eight spline functions). Gradient-severing "
